@@ -33,7 +33,7 @@ def run(tier, replay=None):
     # (V) real code
     drive = vlib.build_harness(cmd="c08")
     trace = c.work / "c08.ndjson"
-    reps1, reps2, cbound, budget = (1, 1, 5000, 12) if tier == "quick" else (3, 1, 10000, 60)
+    reps1, reps2, cbound, budget = (1, 1, 5000, 24) if tier == "quick" else (3, 1, 10000, 60)
     st = vlib.run_driver(drive, ["-gen", genf, "-out", trace, "-seed", c.seed, "-work", c.work / "drv", "-workers", 4,
                                  "-reps1", reps1, "-reps2", reps2, "-cbound", cbound, "-budget", budget], timeout=3000)
     r, lines = c.validate_trace("UrlSpace_Trace", trace, timeout=3000)
